@@ -13,6 +13,7 @@ var validations = []struct {
 	{"max-time", MaxTimeValidation},
 	{"min-size", MinSizeValidation},
 	{"max-size", MaxSizeValidation},
+	{"oneof", OneOfValidation},
 }
 
 var stringValidations = []struct {
